@@ -427,3 +427,61 @@ pub fn sinks(p: &Prog, a: &Analysis) -> Vec<(usize, usize, EdgeInfo)> {
     v.sort_by_key(|x| x.0);
     v
 }
+
+/// Short-circuit hazard (generator-side exclusion; see known finding "short-circuit" of C22):
+/// `cross_singleton` (when `single` is empty it never pulls `input`; it only pulls the first item
+/// of `single`) and `chain_first_n` (stops pulling after n items) leave part of their input
+/// unpulled. A lazily evaluated operator with cross-tick state upstream in the same pull chain
+/// (unique / enumerate / scan with `'static`, multiset_delta) then never sees those items, while
+/// the same program with a handoff in between (or on a push side) does. What such state should
+/// look like afterwards is not documented, so the random generators stay away from the pattern.
+/// Conservative: any path of non-materialising operators from such a stateful operator to a
+/// short-circuiting input counts.
+pub fn short_circuit_hazard(p: &Prog) -> bool {
+    let n = p.nodes.len();
+    // flag per (node, port): carries items that passed a lazily evaluated cross-tick-stateful operator
+    // without being materialised since
+    let mut flag: Vec<bool> = vec![false; n];
+    // iterate to a fixpoint (defer_tick back edges reset the flag anyway)
+    for _ in 0..2 {
+        for (i, node) in p.nodes.iter().enumerate() {
+            let any_in = node.ins.iter().any(|e| e.node < n && flag[e.node]);
+            let st = |pers: &Vec<Pers>| pers.iter().any(|x| *x == Pers::Static);
+            flag[i] = match &node.op {
+                Op::Unique { pers } | Op::Enumerate { pers } | Op::Scan { pers, .. } => st(pers) || any_in,
+                Op::MultisetDelta => true,
+                // materialising / blocking operators: everything upstream is consumed in full
+                Op::Fold { .. }
+                | Op::Reduce { .. }
+                | Op::FoldKeyed { .. }
+                | Op::ReduceKeyed { .. }
+                | Op::Sort
+                | Op::SortByKey(_)
+                | Op::Persist
+                | Op::Join { .. }
+                | Op::CrossJoin { .. }
+                | Op::JoinMultisetHalf { .. }
+                | Op::JoinFused { .. }
+                | Op::LatticeJoinFused { .. }
+                | Op::Zip { .. }
+                | Op::Handoff
+                | Op::Singleton
+                | Op::Optional
+                | Op::DeferTick { .. }
+                | Op::LatticeFold { .. }
+                | Op::LatticeReduce { .. }
+                | Op::LatticeFoldBatch
+                | Op::SrcStream { .. }
+                | Op::SrcIter { .. }
+                | Op::Initialize => false,
+                _ => any_in,
+            };
+        }
+    }
+    for node in &p.nodes {
+        if matches!(node.op, Op::CrossSingleton { .. } | Op::ChainFirstN { .. }) && node.ins.iter().any(|e| flag[e.node]) {
+            return true;
+        }
+    }
+    false
+}
